@@ -312,19 +312,22 @@ PLAN["C16"] = dict(
 
 PLAN["C19"] = dict(
     level="proof",
-    functions=[(STAT, "run_stat#loop"), (GAFPY, "GAF.parse_gaf_line")],
-    explanation="Main loop of run_stat for files of any length, against ghost prefix arrays that DEFINE the figures (NP = primary records, SB = sum of "
+    functions=[(STAT, "run_stat#loop"), (STAT, "run_stat#averages"), (GAFPY, "GAF.parse_gaf_line")],
+    explanation="Main loop of run_stat for files of any length (empty files and files without a primary record included), against ghost prefix arrays that DEFINE the figures (NP = primary records, SB = sum of "
                 "residue matches, SQ = sum of MAPQ, per-operation run counts with a second-level prefix over the (length, op) pairs of each CIGAR, "
                 ">= 50 variants, single-run CIGARs): total = primary + secondary with primary = NP; aligned bases, MAPQ sum and every CIGAR counter "
                 "equal their defining prefix value; the read table holds exactly the names of primary records, each read's best map ratio / "
                 "identity is an upper bound over its primary records and is attained (ghost arg-max). All figures are functions of the multiset "
-                "of records except the float sums. is_primary is derived from the tp:A: field by parse_gaf_line (verified). The final averaging / "
-                "rounding / printing and order-invariance of the printed report are covered by the bounded stand-in.",
+                "of records except the float sums; the record count printed is the number of records (0 for an empty file). The averaging tail sums the "
+                "per-read maxima over the reads and divides by their number only when there is one (no division by zero; 0.0 otherwise). is_primary is "
+                "derived from the tp:A: field by parse_gaf_line (verified). Rounding / printing and order-invariance of the printed report are covered "
+                "by the bounded stand-in.",
     trusted_base=["floats as reals with uninterpreted division fdiv; float comparison = order of the reals (no NaN)",
                   "itertools.groupby(cigar, str.isdigit) gives the maximal digit / non-digit runs (assumed)", "ghost prefix arrays built by X[k+1] = X[k] + d are the sums / counts",
-                  "averaging, round(), print: BOUNDED stand-in only"],
+                  "round(), print, the mean mapping quality line: BOUNDED stand-in only"],
     not_applicable_clauses=["exact floating-point rounding of sums under reordering (floats treated as reals)"],
     mutations=[
+        dict(name="averages divide by the number of reads unconditionally (F17 again)", file=STAT, old="    if len(reads) > 0:\n        avg_highest_seq_identity /= len(reads)", new="    if True:\n        avg_highest_seq_identity /= len(reads)", expect="run_stat#averages", functions=[(STAT, "run_stat#averages")]),
         dict(name="secondary counted without continue", file=STAT, old="            total_secondary += 1\n            continue", new="            total_secondary += 1", expect="run_stat", functions=[(STAT, "run_stat#loop")], quick=False),
         dict(name=">= 50 -> > 50", file=STAT, old='                if all_cigars[cnt + 1] == "D":\n                    total_del += 1\n                    if int(all_cigars[cnt]) >= 50:', new='                if all_cigars[cnt + 1] == "D":\n                    total_del += 1\n                    if int(all_cigars[cnt]) > 50:', expect="run_stat", functions=[(STAT, "run_stat#loop")], quick=False),
         dict(name="tp test ignores lower-case p", file=GAFPY, old='if pattern == "tp:A:" and val != "P" and val != "p":', new='if pattern == "tp:A:" and val != "P":', expect="parse_gaf_line", functions=[(GAFPY, "GAF.parse_gaf_line")]),
